@@ -8,7 +8,7 @@ env=dict(os.environ,GOFLAGS='-mod=mod',GOPROXY='off',GOSUMDB='off',GOTOOLCHAIN='
 SW='/tmp/sw'
 def sh(cmd,cwd=SW,timeout=600):
     try:
-        p=subprocess.run(cmd,shell=True,cwd=cwd,env=env,capture_output=True,text=True,timeout=timeout)
+        p=subprocess.run(cmd,shell=True,cwd=cwd,env=env,capture_output=True,text=True,errors='replace',timeout=timeout)
         return p.returncode,(p.stdout+p.stderr)[-1500:]
     except subprocess.TimeoutExpired:
         return 124,'timeout'
@@ -23,11 +23,11 @@ for prop in sorted(os.listdir(raw)):
         demos=glob.glob(d+'/*_test.go')+glob.glob(d+'/*.go')
         demos=sorted(set(demos))
         def pkgdir(f):
-            m=re.search(r'^package\s+(\w+)',open(f).read(),re.M)
+            m=re.search(r'^package\s+(\w+)',open(f,errors='replace').read(),re.M)
             p=m.group(1) if m else 'mimetype'
             return {'charset':'internal/charset','magic':'internal/magic','json':'internal/json'}.get(p,'.')
-        notes=open(d+'/notes.md').read() if os.path.exists(d+'/notes.md') else ''
-        race=' -race' if (prop=='C06' and '-race' in notes and 'needs `-race`' in notes.lower() or (sid in ('C06-2','C06-r2-1','C06-r3-2','C06-r4-3','C06-r5-2','C06-r5-3','C06-r6-3','C06-r7-1','C06-r7-3','C08-r8-2'))) else ''
+        notes=open(d+'/notes.md',errors='replace').read() if os.path.exists(d+'/notes.md') else ''
+        race=' -race' if (prop=='C06' and '-race' in notes and 'needs `-race`' in notes.lower() or (sid in ('C06-2','C06-r2-1','C06-r3-2','C06-r4-3','C06-r5-2','C06-r5-3','C06-r6-3','C06-r7-1','C06-r7-3','C08-r8-2','C04-r9-2'))) else ''
         def clean(): sh('git checkout -- . && git clean -fdq')
         def place():
             pk=set()
